@@ -95,8 +95,12 @@ hll_sketch_alloc<A>::hll_sketch_alloc(HllSketchImpl<A>* that) :
 
 template<typename A>
 hll_sketch_alloc<A>& hll_sketch_alloc<A>::operator=(const hll_sketch_alloc<A>& other) {
-  sketch_impl->get_deleter()(sketch_impl);
-  sketch_impl = other.sketch_impl->copy();
+  // copy first: safe for self-assignment and for a moved-from target
+  HllSketchImpl<A>* impl_copy = other.sketch_impl->copy();
+  if (sketch_impl != nullptr) {
+    sketch_impl->get_deleter()(sketch_impl);
+  }
+  sketch_impl = impl_copy;
   return *this;
 }
 
